@@ -57,7 +57,7 @@ def generate(rng, prop, tier):
         'dup': rng.choice([0, 0, 1, 3]),
         'lamb': rng.choice([1e-3, 1e-3, 1e-2, 0.1, 1.0]),
         'w': rng.random() < 0.35,
-        'wkind': rng.choice(['random', 'random', 'const', 'const', 'ones']),
+        'wkind': rng.choice(['random', 'random', 'const', 'const', 'ones', 'mask', 'mask']),
         'ydist': rng.choice(['tt', 'normal', 'const']),
         'single': None,
         'basis': rng.choice(['cheb', 'own', 'ownlist']),
@@ -190,7 +190,12 @@ def build_data(sc):
     w = None
     if sc.get('w') and sc.get('kind') != 'als_func':
         wk = sc.get('wkind', 'random')
-        w = g.uniform(0.2, 3.0, M) if wk == 'random' else (np.full(M, float(g.choice([0.1, 5.0, 40.0]))) if wk == 'const' else np.ones(M))
+        w = g.uniform(0.2, 3.0, M) if wk in ('random', 'mask') else (np.full(M, float(g.choice([0.1, 5.0, 40.0]))) if wk == 'const' else np.ones(M))
+        if wk == 'mask':
+            # 0/1-style masks: some samples switched off, among them every sample of one slice of mode 1 (the core updated last)
+            w[g.random(M) < 0.2] = 0.0
+            if len(n) > 1 and n[1] >= 2:
+                w[I[:, 1] == int(g.integers(0, n[1]))] = 0.0
     return I, y, w
 
 
